@@ -48,6 +48,15 @@ theorem c08_originals_outlive_copy (c : Cfg) (p : Plan) (oi os : List Bool) (fs0
   ((along_iff Safe (RemoveOk c) _ _).mp (crash_safe c srcFacts p oi os fs0 u c08_x_generators_propagate h0)).2
     pre (.remove s) h s rfl hs
 
+/-- **C08 (durable before visible).**  In the operations of `proxyFrac.Seal` - whatever the configuration, the
+generators, the sizes and the answers of the environment - every `rename` of an output to its final name comes when
+the last thing that happened to that file was its `fsync` (no create or write in between): a file never becomes
+visible under a name the loader trusts before its contents are durable.  The order on the real code is observed from
+the system calls (channel seal.syscalls) and from the hook points (seal.trace). -/
+theorem c08_durable_before_visible (c : Cfg) (f : Facts) (p : Plan) (oi os : List Bool) :
+    syncedBeforeRename (sealTrace c f p oi os).2 (fun _ => true) = true :=
+  sealTrace_syncedBeforeRename c f p oi os
+
 /-- **C08 (a failed seal is not published), index output.**  If any `Seek`/`Write` that was issued on the index
 output got an error, `Seal` fails: `._index` is not renamed to `.index` and nothing is released. -/
 theorem c08_error_not_published (c : Cfg) (p : Plan) (oi os : List Bool)
@@ -197,6 +206,10 @@ example :
         .remove .metaF, .remove .docs]) ∧
     (applyOps (sealTrace ⟨false, false⟩ ⟨true, true, true, true⟩ p [] []).2 ⟨{ docs := .full, metaF := .full }, []⟩).fs =
       { sdocs := .full, index := .full } := by decide
+
+/-- the checker is not vacuous: the same operations with `rename` and `sync` swapped are rejected -/
+example : syncedBeforeRename [.create .indexTmp, .write .indexTmp, .rename .indexTmp .index, .sync .index] (fun _ => true) = false := by
+  decide
 
 /-- a failing write in the lids section with propagating generators: error, nothing renamed, nothing removed -/
 example :
